@@ -4,6 +4,7 @@
 // Line protocol (objects live in numbered slots):
 //   new <id> <kind> <params>      cm:{i|d}:<seed> <num_hashes> <num_buckets> | fi:{i|s}:{u|d} <lg_max> <lg_start>
 //                                 vo:{i|s} <k> <rf> | vu:{i|s} <max_k> | eb:{i|s} <k>
+//   zerofill <0|1>                allocations made from now on are zero-filled (default: ASan's 0xBE fill)
 //   seed <n>                      (re)seed the installed random source (VarOpt / EBPPS draws)
 //   upd <id> <item> <weight>      item: decimal int64 or hex bytes ("-" empty) for string kinds / x<hex> for count-min strings
 //   merge <dst> <src>             family merge (vu: update(sketch src); src may be a vo object)
@@ -36,9 +37,10 @@ static size_t g_live = 0;
 static bool g_cap_hit = false;
 static const size_t ALLOC_CAP = size_t(256) << 20;
 
+static bool g_zero_fill = false;     // op `zerofill 1`: see VU::content below
 static void* vh_alloc(size_t n) {
   if (n > ALLOC_CAP) { g_cap_hit = true; throw std::bad_alloc(); }
-  void* p = malloc(n ? n : 1);
+  void* p = g_zero_fill ? calloc(n ? n : 1, 1) : malloc(n ? n : 1);
   if (p == nullptr) throw std::bad_alloc();
   ++g_live;
   return p;
@@ -111,6 +113,69 @@ struct Any {
   virtual bool table_order_free() const { return false; }
   virtual std::unique_ptr<Any> result() const { throw std::invalid_argument("no result()"); }
 };
+
+// Runs fn() in a forked child and returns its string; a sanitizer abort / crash of the child gives "CRASH:<code>".
+// Used for var_opt_union::get_result(), which (on the pinned tree) reads never-initialised `marks_` slots when marked items
+// have to be migrated (UBSan: load of an invalid bool) - the harness must survive that to report it as a finding.
+static std::string g_notes;          // crash notes collected since the last `ser`
+template<typename F> static std::string guarded(const char* what, F fn) {
+  std::cout.flush();
+  int pr[2], pe[2];
+  if (pipe(pr) != 0 || pipe(pe) != 0) throw std::runtime_error("pipe");
+  pid_t pid = fork();
+  if (pid < 0) throw std::runtime_error("fork");
+  if (pid == 0) {
+    close(pr[0]); close(pe[0]); dup2(pe[1], 2);
+    std::string r;
+    try { r = "R" + fn(); } catch (const std::exception&) { r = "E"; }
+    size_t off = 0; while (off < r.size()) { ssize_t k = write(pr[1], r.data() + off, r.size() - off); if (k <= 0) break; off += k; }
+    _exit(0);
+  }
+  close(pr[1]); close(pe[1]);
+  std::string out, err;
+  struct pollfd fds[2] = {{pr[0], POLLIN, 0}, {pe[0], POLLIN, 0}};
+  int open_fds = 2;
+  while (open_fds > 0) {
+    if (poll(fds, 2, -1) < 0) break;
+    for (int k = 0; k < 2; ++k) {
+      if (fds[k].fd < 0) continue;
+      if (fds[k].revents & (POLLIN | POLLHUP | POLLERR)) {
+        char b[4096]; ssize_t r = read(fds[k].fd, b, sizeof b);
+        if (r > 0) (k == 0 ? out : err).append(b, r); else { close(fds[k].fd); fds[k].fd = -1; --open_fds; }
+      }
+    }
+  }
+  int status = 0; waitpid(pid, &status, 0);
+  if (WIFEXITED(status) && WEXITSTATUS(status) == 0 && !out.empty()) {
+    if (out[0] == 'E') throw std::runtime_error("exception in guarded call");
+    return out.substr(1);
+  }
+  std::string code = "crash";
+  if (err.find("AddressSanitizer") != std::string::npos) code = "asan";
+  else if (err.find("runtime error") != std::string::npos) {
+    // "<file>:<line>:<col>: runtime error: <message>"  ->  ubsan:<file basename>:<first words of the message, digits dropped>
+    code = "ubsan";
+    size_t p = err.find(": runtime error: ");
+    if (p != std::string::npos) {
+      size_t ls = err.rfind('\n', p); ls = (ls == std::string::npos) ? 0 : ls + 1;
+      std::string loc = err.substr(ls, p - ls);
+      size_t c1 = loc.find(':'); if (c1 != std::string::npos) loc = loc.substr(0, c1);
+      size_t sl = loc.rfind('/'); if (sl != std::string::npos) loc = loc.substr(sl + 1);
+      std::string msg = err.substr(p + 17, 80), slug; int words = 0; bool inword = false;
+      for (char ch : msg) {
+        if (ch == '\n') break;
+        if (isalpha((unsigned char)ch)) { slug.push_back(ch); inword = true; }
+        else if (inword) { inword = false; if (++words >= 5) break; slug.push_back('-'); }
+      }
+      while (!slug.empty() && slug.back() == '-') slug.pop_back();
+      code += ":" + loc + ":" + slug;
+    }
+  }
+  if (getenv("VH_VERBOSE")) std::cerr << what << " -> " << code << "\n" << err.substr(0, 1500) << "\n";
+  std::string note = std::string(what) + "-" + code;
+  if (g_notes.find(note) == std::string::npos) g_notes += (g_notes.empty() ? "" : ",") + note;
+  return "CRASH:" + code;
+}
 
 template<typename V> static std::string ser_to_string(const V& v) { std::ostringstream os(std::ios::binary); v.serialize(os); return os.str(); }
 
@@ -234,7 +299,9 @@ template<typename T> struct VU : Any {
   S s;
   VU(S&& x) : s(std::move(x)) {}
   std::string kind() const override { return std::string("vu:") + Item<T>::tag(); }
-  std::string content() const override { SeededDraw d(12345); auto r = s.get_result(); return varopt_content<T>("VU", r); }
+  std::string content() const override {
+    return guarded("get-result", [&]() { SeededDraw d(12345); auto r = s.get_result(); return varopt_content<T>("VU", r); });
+  }
   void upd(const std::string&, const std::string&) override { throw std::invalid_argument("var_opt_union has no item update"); }
   void merge(const Any& o) override { const VO<T>* p = dynamic_cast<const VO<T>*>(&o); if (!p) throw std::invalid_argument("kind"); s.update(p->s); }
   Bytes ser(unsigned h) const override { auto v = s.serialize(h); return Bytes(v.begin(), v.end()); }
@@ -374,6 +441,7 @@ static std::string c09_checks(const Any& o, const Bytes& img) {
       }
     } catch (const std::exception&) { bad.push_back(std::string("reserialize-") + nm + "-throws"); }
   }
+  if (!g_notes.empty()) { bad.push_back(g_notes); g_notes.clear(); }
   if (bad.empty()) return "ok";
   std::string s = "FAIL:";
   for (size_t i = 0; i < bad.size(); ++i) { if (i) s += ","; s += bad[i]; }
@@ -516,6 +584,7 @@ static std::string step(const std::vector<std::string>& w) {
     objs[id] = make(w.at(2), std::vector<std::string>(w.begin() + 3, w.end()));
     return "ok";
   }
+  if (op == "zerofill") { g_zero_fill = w.at(1) == "1"; return "ok"; }
   if (op == "seed") { reseed(strtoull(w.at(1).c_str(), nullptr, 10)); return "ok"; }
   if (op == "upd") { objs.at(atoi(w.at(1).c_str()))->upd(w.at(2), w.at(3)); return "ok"; }
   if (op == "merge") { objs.at(atoi(w.at(1).c_str()))->merge(*objs.at(atoi(w.at(2).c_str()))); return "ok"; }
@@ -529,14 +598,23 @@ static std::string step(const std::vector<std::string>& w) {
     return "ok";
   }
   if (op == "eq") {
-    std::string a = objs.at(atoi(w.at(1).c_str()))->content(), b = objs.at(atoi(w.at(2).c_str()))->content();
+    std::string a = objs.at(atoi(w.at(1).c_str()))->content();
+    std::string b = objs.at(atoi(w.at(2).c_str()))->content();
+    if (a.compare(0, 6, "CRASH:") == 0 || b.compare(0, 6, "CRASH:") == 0) { std::string n = g_notes; g_notes.clear(); return "EQ X " + n; }
     return a == b ? "EQ 1" : "EQ 0 | " + a + " | " + b;
   }
   if (op == "content") { return objs.at(atoi(w.at(1).c_str()))->content(); }
   if (op == "ser") {
     Any& o = *objs.at(atoi(w.at(1).c_str()));
-    Bytes img = o.ser(0);
-    return "IMG " + o.kind() + " " + hexs(img) + " | " + o.content() + " | " + c09_checks(o, img);
+    // the whole battery runs in a child: a sanitizer abort inside a writer/reader under VALID use is reported, not fatal
+    std::string line = guarded("ser", [&]() {
+      Bytes img = o.ser(0);
+      std::string content = o.content();
+      std::string checks = c09_checks(o, img);
+      return "IMG " + o.kind() + " " + hexs(img) + " | " + content + " | " + checks;
+    });
+    if (line.compare(0, 6, "CRASH:") == 0) { g_notes.clear(); return "SERCRASH " + o.kind() + " " + line.substr(6); }
+    return line;
   }
   if (op == "load") {
     auto proto = make(w.at(1), {});
